@@ -57,6 +57,12 @@ def make_case(seed):
         opts.pop('--width')
         if '--dark' not in opts and '--light' not in opts:
             opts['--dark'] = True
+    if rng.random() < 0.5 and str(opts.get('--wrap-max-lines', '2')) in ('unlimited', '∞', 'inf'):
+        # (with a finite number of rows delta raises the limit to what those rows can hold plus a margin and cuts there)
+        # (with wrapping switched off the maximum line length is the only limit and cuts before the panel edge)
+        # a small maximum line length: in side-by-side mode it may not cut a line before the allowed wrapped rows are used up
+        opts['--max-line-length'] = rng.choice([20, 60, 150, 400])
+        meta['classes'] = meta.get('classes', []) + ['small-max-line-length']
     panel = W // 2
     # available text width per panel, roughly (gutter ~6)
     avail = max(4, panel - 6)
